@@ -308,6 +308,7 @@ pub fn run(env: &Env) -> i32 {
         eval: 0,
         observe: 16,
         binds: 0,
+        raw_choose: false,
         max_ops: 30,
     };
     let n = env.cases(10000, 300000);
